@@ -285,6 +285,61 @@ func c06Scenarios(tier string) []e1lib.Scenario {
 			}
 		}
 	}
+	// the context is already cancelled when the stage is created: whatever shortcut a stage takes for that case, every
+	// returned channel closes and nothing stays behind, with consumers that drain and with consumers that never show up
+	for cp := 0; cp <= 1; cp++ {
+		for k := 0; k <= 2; k++ {
+			for _, stop := range []int{-1, 0} {
+				pc := stage.Cfg{K: k, Cap: cp, PreCancel: true, Stop: stop, Stop2: stop}
+				for _, st := range []string{"map", "fmap"} {
+					for _, mode := range []string{"lift", "try"} {
+						for _, rd := range []string{"reader", "none", "stderr"} {
+							if rd == "stderr" && (st == "fmap" || mode == "lift") {
+								continue
+							}
+							c := pc
+							c.Stage, c.Mode, c.ErrRd, c.Mask = st, mode, rd, 1<<1
+							add(c)
+						}
+					}
+				}
+				for _, st := range []string{"filter", "takewhile", "take", "partition", "fold", "throttle"} {
+					c := pc
+					c.Stage, c.Mask, c.N, c.Ops = st, 0b1110, 1, 1
+					add(c)
+				}
+				if stop == -1 {
+					for _, st := range []string{"foreach", "void"} {
+						c := pc
+						c.Stage = st
+						add(c)
+					}
+				}
+				if k > 0 {
+					continue
+				}
+				for _, ins := range [][]int{{}, {1}, {1, 2}} {
+					c := stage.Cfg{Stage: "join", Cap: cp, PreCancel: true, Inputs: ins, Stop: stop}
+					add(c)
+				}
+				for _, st := range []string{"emit", "unfold"} {
+					for _, mode := range []string{"lift", "try"} {
+						if st == "unfold" && mode == "try" {
+							continue
+						}
+						for _, rd := range []string{"reader", "none"} {
+							m := 1
+							if st == "unfold" {
+								m = 1 << 1
+							}
+							add(stage.Cfg{Stage: st, Cap: cp, PreCancel: true, Mode: mode, Mask: m, ErrRd: rd, Stop: 0})
+							add(stage.Cfg{Stage: st, Cap: cp, PreCancel: true, Mode: mode, Mask: 0, ErrRd: rd, Stop: 0})
+						}
+					}
+				}
+			}
+		}
+	}
 	// Take over Seq with argument lists longer than any plausible internal buffer
 	for _, k := range []int{3, 130, 1100, 2100} {
 		add(stage.Cfg{Stage: "seqtake", K: k, N: 2, Stop: -1, Stop2: -1})
